@@ -41,6 +41,11 @@ func (g *GEM) prologues() []prologueInfo {
 						}
 					}
 				}
+				// a render closure is also recognised by its signature, so that one which no longer acquires a buffer is
+				// still examined
+				if fl.Type.Params != nil && len(fl.Type.Params.List) == 1 && strings.HasSuffix(types.ExprString(fl.Type.Params.List[0].Type), "GeneratedComponentInput") {
+					has = true
+				}
 				if has {
 					out = append(out, prologueInfo{Fn: gf, Sk: sk, Lit: fl, Decl: sk.Mode == "decl" || sk.Mode == "declc", Stmts: fl.Body.List})
 				}
@@ -167,6 +172,9 @@ func gBufferOwnership(c *Ctx, rule string) {
 		key := p.Fn.Key + "|buffer-ownership:" + kind
 		iBuf := stmtIndex(p.Stmts, func(s ast.Stmt) bool { _, _, ok := isAssignFromCall(s, "templruntime.GetBuffer"); return ok })
 		good, why := false, "no `if !<isBuffer> { defer func(){…}() }` after GetBuffer"
+		if iBuf < 0 {
+			why = "the render closure does not acquire a buffer for ITS OWN writer (no templruntime.GetBuffer(<writer of its input>)): what it renders goes to a buffer captured from the enclosing template, so a component that renders its children into a different writer, or later, gets nothing there and the bytes appear in the parent's output instead"
+		}
 		releaseOutsideDefer := false
 		// every ReleaseBuffer call must be inside a defer
 		ast.Inspect(p.Lit.Body, func(x ast.Node) bool {
@@ -227,6 +235,30 @@ func gBufferOwnership(c *Ctx, rule string) {
 		}
 		if releaseOutsideDefer {
 			good, why = false, "templruntime.ReleaseBuffer is called outside a defer"
+		}
+		// the buffer is acquired for the closure's OWN writer: GetBuffer(<w>) with <w> taken from this closure's input
+		if good && iBuf >= 0 && p.Lit.Type.Params != nil && len(p.Lit.Type.Params.List) == 1 && len(p.Lit.Type.Params.List[0].Names) == 1 {
+			in := p.Lit.Type.Params.List[0].Names[0].Name
+			_, call, _ := isAssignFromCall(p.Stmts[iBuf], "templruntime.GetBuffer")
+			own := false
+			if call != nil && len(call.Args) == 1 {
+				warg := types.ExprString(call.Args[0])
+				if warg == in+".Writer" {
+					own = true
+				}
+				for _, st := range p.Stmts[:iBuf] {
+					if as, ok := st.(*ast.AssignStmt); ok {
+						for i, l := range as.Lhs {
+							if types.ExprString(l) == warg && i < len(as.Rhs) && types.ExprString(as.Rhs[i]) == in+".Writer" {
+								own = true
+							}
+						}
+					}
+				}
+			}
+			if !own {
+				good, why = false, "GetBuffer is not called with the writer of this closure's own input"
+			}
 		}
 		// the closure owns its error: the named result that the deferred adoption assigns to is declared by this closure
 		ownErr := false
